@@ -96,7 +96,7 @@ fn template_body<const N: usize>(t: &[u8; N], kind: u8) { let s = from_template(
 //# {"id":"c06_map_desc_t_Lx_x","props":["C06","C08"],"tier":"quick","cap":900,"bound":"all strings L?;? as field descriptor (a byte after the class name); unwind 7","lib":"verif","fns":["quill::remapper::map_desc","ARemapper::{map_field_desc,map_class}"]}
 //# {"id":"c06_map_desc_t_method","props":["C06","C08"],"tier":"thorough","cap":3000,"bound":"all strings (L?;)L?; as method descriptor (two names in one descriptor); unwind 11","lib":"verif","fns":["quill::remapper::map_desc","ARemapper::{map_method_desc,map_class}"]}
 //# {"id":"c06_map_desc_t_arr","props":["C06","C08"],"tier":"thorough","cap":3000,"bound":"all strings [[L?/?; as field descriptor (package-qualified name inside an array descriptor); unwind 10","lib":"verif","fns":["quill::remapper::map_desc","ARemapper::{map_field_desc,map_class}"]}
-//# {"id":"c06_map_desc_ascii3","props":["C06","C08"],"tier":"thorough","cap":3600,"bound":"every ASCII string of length 0..=3 as field / method / return descriptor; hash-free remapper a->bb, c->d; unwind 6 (exceeded 12 GB in every run so far: expected UNDECIDED)","fns":["quill::remapper::map_desc","ARemapper::{map_field_desc,map_method_desc,map_return_desc,map_class}"]}
+//# {"id":"c06_map_desc_ascii3","props":["C06","C08"],"tier":"thorough","cap":3600,"bound":"every ASCII string of length 0..=3 as field / method / return descriptor; hash-free remapper a->bb, c->d; unwind 6 (exceeded 12 GB in every run so far: expected UNDECIDED)","lib":"verif","fns":["quill::remapper::map_desc","ARemapper::{map_field_desc,map_method_desc,map_return_desc,map_class}"]}
 //# {"id":"c06_map_class_defaults","props":["C06"],"tier":"thorough","cap":3600,"bound":"map_class / map_class_any on every valid ASCII class name of length 1..=3 (object names) and on array names [La; [Lx; [[I; unwind 8","lib":"verif","fns":["ARemapper::{map_class,map_class_any}","map_desc"]}
 proofs! {
 	#[cfg_attr(kani, kani::unwind(5))]
@@ -252,9 +252,9 @@ mod inherit {
 	}
 }
 
-//# {"id":"c06_inheritance_cfgs","module":"c06_remap::inherit_proofs","props":["C06"],"tier":"thorough","cap":3600,"bound":"member remapper built from explicit tables (hook b_remapper_from_parts): hierarchy C -> [P, Q] / [Q, P]; 9 concrete configurations of who declares f:I (own class; every subset of the two super types in both declaration orders), the queried field name is a symbolic byte (every valid one-byte name); model indexmap; unwind 8","fns":["quill::remapper::BRemapperImpl::map_field_fail","BRemapper::map_field","TupleReq/TupleKey Equivalent"]}
-//# {"id":"c06_inheritance_order","module":"c06_remap::inherit_proofs","props":["C06"],"tier":"thorough","cap":3600,"bound":"member remapper built from explicit tables (hook b_remapper_from_parts): hierarchy C -> [P, Q] in either order; every subset of {C, P, Q} declaring f:I (16 configurations, symbolic); model indexmap; unwind 8","fns":["quill::remapper::BRemapperImpl::map_field_fail","BRemapper::map_field","TupleReq/TupleKey Equivalent"]}
-//# {"id":"c06_inheritance_search","module":"c06_remap::inherit_proofs","props":["C06"],"tier":"thorough","cap":3600,"bound":"member remapper built from explicit tables (hook b_remapper_from_parts): hierarchy C -> [P, Q] (either order), P -> [G]; every subset of {C, P, Q, G} declaring f:I, P mapped or not, C known to the inheritance provider or not (128 configurations, symbolic); model indexmap; unwind 8","fns":["quill::remapper::BRemapperImpl::{map_field_fail}","BRemapper::map_field","TupleReq/TupleKey Equivalent"]}
+//# {"id":"c06_inheritance_cfgs","module":"c06_remap::inherit_proofs","props":["C06"],"tier":"thorough","cap":3600,"bound":"member remapper built from explicit tables (hook b_remapper_from_parts): hierarchy C -> [P, Q] / [Q, P]; 9 concrete configurations of who declares f:I (own class; every subset of the two super types in both declaration orders), the queried field name is a symbolic byte (every valid one-byte name); model indexmap; unwind 8","lib":"verif","fns":["quill::remapper::BRemapperImpl::map_field_fail","BRemapper::map_field","TupleReq/TupleKey Equivalent"]}
+//# {"id":"c06_inheritance_order","module":"c06_remap::inherit_proofs","props":["C06"],"tier":"thorough","cap":3600,"bound":"member remapper built from explicit tables (hook b_remapper_from_parts): hierarchy C -> [P, Q] in either order; every subset of {C, P, Q} declaring f:I (16 configurations, symbolic); model indexmap; unwind 8","lib":"verif","fns":["quill::remapper::BRemapperImpl::map_field_fail","BRemapper::map_field","TupleReq/TupleKey Equivalent"]}
+//# {"id":"c06_inheritance_search","module":"c06_remap::inherit_proofs","props":["C06"],"tier":"thorough","cap":3600,"bound":"member remapper built from explicit tables (hook b_remapper_from_parts): hierarchy C -> [P, Q] (either order), P -> [G]; every subset of {C, P, Q, G} declaring f:I, P mapped or not, C known to the inheritance provider or not (128 configurations, symbolic); model indexmap; unwind 8","lib":"verif","fns":["quill::remapper::BRemapperImpl::{map_field_fail}","BRemapper::map_field","TupleReq/TupleKey Equivalent"]}
 pub mod inherit_proofs {
 	use crate::proofs;
 	proofs! {
